@@ -140,6 +140,24 @@ pub fn gen_value(rng: &mut Rng, ty: &str, pool: &Pool) -> Value {
                 json!({"b": {"n": rng.below(99)}})
             }
         }
+        "Tree" => {
+            // mostly bushes; now and then a chain far deeper than any ordinary message (but within
+            // what a JSON parser with the usual 128 level limit reads)
+            fn bush(rng: &mut Rng, depth: u32) -> Value {
+                let n = if depth >= 3 { 0 } else { rng.below(3) };
+                json!({"v": rng.below(100), "kids": (0..n).map(|_| bush(rng, depth + 1)).collect::<Vec<_>>()})
+            }
+            if rng.chance(1, 4) {
+                let len = rng.range(10, 55);
+                let mut t = json!({"v": 0, "kids": []});
+                for i in 0..len {
+                    t = json!({"v": i + 1, "kids": [t]});
+                }
+                t
+            } else {
+                bush(rng, 0)
+            }
+        }
         "Script" => json!([]),
         "Pay" => json!({"nonce": rng.below(1 << 40), "script": []}),
         other => json!(format!("<<no generator for {other}>>")),
